@@ -28,7 +28,7 @@ def ordOf : String → Option Ord
   | "acq" => some .acq | "ar" => some .acq | "sc" => some .sc | _ => none
 
 def wakeOf : String → Option Wake
-  | "notified" => some .notified | "spurious" => some .spurious | "timeout" => some .timeout | _ => none
+  | "notified" => some .notified | "spurious" => some .spurious | "timeout" => some .timeout | "late" => some .late | _ => none
 
 def parse : List String → Option (Option Ev)
   | ["call", k] => (kindOf k).map (fun k => some (.call k))
@@ -52,7 +52,7 @@ def pcName : Pc → String
   | .aUnlockT => "aUnlockT" | .aLockA => "aLockA" | .aHold _ _ => "aHold" | .aRet _ => "aRet"
   | .tCalled _ => "tCalled" | .tLock _ => "tLock" | .tHold _ _ _ => "tHold" | .tRet _ => "tRet"
   | .wCalled _ => "wCalled" | .wLock _ => "wLock" | .wHold _ _ => "wHold" | .wSleep _ => "wSleep"
-  | .wTimedOut _ => "wTimedOut" | .wUnlock _ _ => "wUnlock" | .wRet _ _ => "wRet"
+  | .wTimedOut _ => "wTimedOut" | .wLate _ => "wLate" | .wUnlock _ _ => "wUnlock" | .wRet _ _ => "wRet"
   | .rCalled => "rCalled" | .rLocked => "rLocked" | .rLoop => "rLoop" | .rRelease => "rRelease"
   | .rRelock => "rRelock" | .rStore => "rStore" | .rUnlock _ => "rUnlock" | .rRet => "rRet"
   | .oCalled _ => "oCalled" | .oRet _ _ => "oRet"
@@ -91,7 +91,9 @@ def edge (s : St) (t : Tid) (e : Ev) : String :=
   | .wSleep k, .cwk _ .notified => "wSleep/cwk-notified-" ++ sideName k.side
   | .wSleep k, .cwk _ .spurious => "wSleep/cwk-spurious-" ++ sideName k.side
   | .wSleep k, .cwk _ .timeout => "wSleep/cwk-timeout-" ++ wkName k
+  | .wSleep k, .cwk _ .late => "wSleep/cwk-late-" ++ wkName k
   | .wTimedOut k, .ld _ _ v => "wTimedOut/ld-" ++ b v ++ "-" ++ wkName k
+  | .wLate k, .ld _ _ v => "wLate/ld-" ++ b v ++ "-" ++ wkName k
   | .wUnlock k r, _ => "wUnlock/" ++ wkName k ++ "-" ++ b r
   | .wRet k r, _ => "wRet/" ++ wkName k ++ "-" ++ b r ++ (if (s.obs t).isSome then "-observed" else "")
   | .rLocked, .ld _ _ v => "rLocked/ld-" ++ b v
@@ -106,7 +108,9 @@ discipline leaves free (the order of store and notify inside trigger()'s / activ
 memory order of reset's loop load when it is at least acquire, which method a spurious wake-up hits), so a
 harmless rewrite of those keeps every edge covered.  `wTimedOut/ld-1-*` (the deciding load after a time-out
 reads `true`) is what the code is prepared for but cannot happen: the model's `cwk timeout` re-acquires the
-mutex in the same step, and `C11_timeout_sees_false` proves the flag is false then; it is not required. -/
+mutex in the same step, and `C11_timeout_sees_false` proves the flag is false then; it is not required.
+`wLate/ld-0-*` (late wake-up, then the flag was cleared / reset again before the deciding load) needs a
+re-activation in a narrow window and is not required either. -/
 def edges : List String :=
   ["idle/call-activate", "idle/call-trigger", "idle/call-wait", "idle/call-waitFor", "idle/call-waitAct",
    "idle/call-waitForAct", "idle/call-reset", "idle/call-isActive", "idle/call-isTriggered",
@@ -123,6 +127,7 @@ def edges : List String :=
    "wSleep/cwk-notified-trig", "wSleep/cwk-notified-act", "wSleep/cwk-spurious-trig", "wSleep/cwk-spurious-act",
    "wSleep/cwk-timeout-waitFor", "wSleep/cwk-timeout-waitForAct",
    "wTimedOut/ld-0-waitFor", "wTimedOut/ld-0-waitForAct",
+   "wSleep/cwk-late-waitFor", "wSleep/cwk-late-waitForAct", "wLate/ld-1-waitFor", "wLate/ld-1-waitForAct",
    "wUnlock/wait-1", "wUnlock/waitFor-0", "wUnlock/waitFor-1", "wUnlock/waitAct-1", "wUnlock/waitForAct-0",
    "wUnlock/waitForAct-1",
    "wRet/wait-1", "wRet/wait-1-observed", "wRet/waitFor-1", "wRet/waitFor-1-observed", "wRet/waitFor-0-observed",
